@@ -280,7 +280,11 @@ def bindersOf (ts : List Template) : List Nat :=
 /-- A head that is looked up in the caller's scope and is not `derive_more`. -/
 def Head.escapes (B : List Nat) : Head → Bool
   | .path n => !(isPrimitive n || n == idDeriveMore || B.contains n)
-  | .ext n => !(n == idDeriveMore || n == idStd || n == idCore)
+  -- `::name::..` goes through the extern prelude of the *caller's* crate, where `extern crate a as name;`
+  -- (or a dependency called `name`) re-binds any name. The one accepted spelling is
+  -- `::std::backtrace::Backtrace` of Error's nightly-only `provide` code: the facade re-exports `core`
+  -- but not `std`, and a caller that can name `Backtrace` has `std` linked under that name.
+  | .ext n => !(n == idStd)
   | .mac _ => true
   | .method n => !isKnownMethod n
   | .methodVar => true
@@ -320,6 +324,8 @@ structure Scope (Item : Type) where
   mac : Nat → Option Item
   /-- method lookup through the traits in scope (`none` as name: interpolated) -/
   meth : Option Nat → Option Item
+  /-- the extern prelude of the caller's crate (`::name`): dependencies and `extern crate .. as name;` -/
+  ext : Nat → Option Item
 
 /-- What is fixed whatever the caller's scope: the language prelude, the crates and the template's
 own bindings. -/
@@ -334,7 +340,7 @@ def resolveHead {Item : Type} (B : List Nat) (fx : Fixed Item) (σ : Scope Item)
     if B.contains n then fx.localItem n          -- bound by the expansion itself
     else if isPrimitive n then fx.lang n
     else σ.name n
-  | .ext n => fx.crates n
+  | .ext n => if n == idStd then fx.crates n else σ.ext n
   | .mac n => σ.mac n
   | .method n => if isKnownMethod n then fx.methodItem n else σ.meth (some n)   -- unknown: needs a trait from the scope
   | .methodVar => if file < nCurrentImplFiles then fx.methodItem 0 else σ.meth none
